@@ -89,7 +89,7 @@ def harnesses(ctx) -> List[H]:
                       f'{{{t}"multipleOf": m}}', group="num", timeout=60, twin_tier=Q if typ is None else T)
     # dyadic float bounds with int values (float constant concrete)
     for kw, c in (("minimum", "0.5"), ("exclusiveMaximum", "2.0"), ("maximum", "-1.25")):
-        hs += _triple(f"c01_num_{kw}_float", f"v: {SCALAR}", SCALAR_PRE, f'{{"type": "number", "{kw}": {c}}}', group="num", tier=T)
+        hs += _triple(f"c01_num_{kw}_float", f"v: {SCALAR}", SCALAR_PRE, f'{{"type": "number", "{kw}": {c}}}', group="num", tier=T, expect="unknown")
     hs += _triple("c01_num_const", f"c: Union[int, bool, None], v: {SCALAR}", SCALAR_PRE, '{"const": c}', group="lit")
     hs += _triple("c01_num_enum", f"c1: Union[int, bool], c2: Union[int, bool, None], v: {SCALAR}", SCALAR_PRE,
                   '{"enum": [c1, c2]}', group="lit")
@@ -154,7 +154,7 @@ if f5: S0["multipleOf"] = m
                   '{"type": "array", "items": {"type": "string", "maxLength": n}, "uniqueItems": True}', group="arr", tier=T, timeout=90)
     NV = "List[List[Union[int, bool]]]"
     NPRE = ["len(v) <= 2", "all(len(x) <= 2 for x in v)"]
-    hs += _triple("c01_arr_nested_unique", f"v: {NV}", NPRE, '{"uniqueItems": True}', group="lit", timeout=60)
+    hs += _triple("c01_arr_nested_unique", f"v: {NV}", NPRE, '{"uniqueItems": True}', group="lit", timeout=200)
     hs += _triple("c01_arr_nested_items", f"m: int, v: {NV}", NPRE,
                   '{"items": {"type": "array", "items": {"type": "integer", "minimum": m}, "maxItems": 1}}', group="arr", tier=T, timeout=60)
     hs += _triple("c01_lit_const_list", f"c: Union[int, bool], v: Union[List[Union[int, bool]], int]", LPRE, '{"const": [c]}', group="lit")
@@ -222,11 +222,11 @@ if f5: S0["multipleOf"] = m
     def comp(name, schema, tier, timeout=40, twins=False):
         return _triple(name, f"m: int, n: int, v: {COMPV}", COMPV_PRE, schema, group="comp", tier=tier, timeout=timeout, twins=twins)
 
-    quick_pairs = {("min", "int"), ("str", "maxlen"), ("req", "min"), ("T", "min"), ("F", "int"), ("int", "int")}
+    quick_pairs = {("min", "int"), ("str", "maxlen"), ("req", "min"), ("T", "min"), ("F", "int"), ("int", "int"), ("int", "maxlen")}
     for kw in ("anyOf", "oneOf", "allOf"):
         for l1, l2 in itertools.product(LEAVES, LEAVES):
             tier = Q if (l1, l2) in quick_pairs else T
-            hs += comp(f"c01_comp_{kw}_{l1}_{l2}", f'{{"{kw}": [{LEAVES[l1]}, {LEAVES[l2]}]}}', tier, twins=(l1, l2) == ("min", "int"))
+            hs += comp(f"c01_comp_{kw}_{l1}_{l2}", f'{{"{kw}": [{LEAVES[l1]}, {LEAVES[l2]}]}}', tier, twins=(l1, l2) == ("int", "maxlen"))
         hs += comp(f"c01_comp_{kw}_single", f'{{"{kw}": [{LEAVES["min"]}]}}', T)
         hs += comp(f"c01_comp_{kw}_three", f'{{"{kw}": [{LEAVES["min"]}, {LEAVES["int"]}, {LEAVES["maxlen"]}]}}', Q, timeout=60)
     for l1 in LEAVES:
@@ -243,7 +243,7 @@ if f5: S0["multipleOf"] = m
     for kw in ("anyOf", "oneOf", "allOf", "not"):
         for sn, sib in sibs.items():
             inner = f'[{LEAVES["min"]}, {LEAVES["str"]}]' if kw != "not" else LEAVES["min"]
-            hs += comp(f"c01_comp_{kw}_sib_{sn}", f'{{{sib}, "{kw}": {inner}}}', Q if sn in ("type", "props") else T, timeout=60, twins=(sn == "type"))
+            hs += comp(f"c01_comp_{kw}_sib_{sn}", f'{{{sib}, "{kw}": {inner}}}', Q if sn in ("type", "props", "min") else T, timeout=60, twins=(sn == "min"))
     # two composition keywords at once
     kws = ("anyOf", "oneOf", "allOf", "not")
     two_leaves = [("min", "int"), ("str", "maxlen"), ("req", "T"), ("int", "F")]
